@@ -28,4 +28,6 @@ PredictedReply == l = 0 \/ ~E.haspred \/ ~ReplyBearingJudged \/ Mat(E.pred) = Ma
 LiveReply == l = 0 \/ ~E.haslive \/ ~ReplyBearingJudged \/ Mat(E.live) = Mat(ReplyFrame(D, E.livepser))
 \* the body parses with the matching message type and re-encodes to the identical bytes (observed by the harness)
 BodyRoundTrip == l = 0 \/ E.bodyok
+\* a frame the simulator returned keeps its bytes while the next one is generated (observed by the harness)
+HeldFrameStable == l = 0 \/ "prevsame" \notin DOMAIN E \/ E.prevsame
 =============================================================================
